@@ -92,6 +92,7 @@ class StreamReader:
         "_size",
         "_cursor",
         "_http_chunk_splits",
+        "_last_chunk_end",
         "_buffer",
         "_buffer_offset",
         "_eof",
@@ -126,6 +127,7 @@ class StreamReader:
         self._size = 0
         self._cursor = 0
         self._http_chunk_splits: collections.deque[int] | None = None
+        self._last_chunk_end = 0
         self._buffer: collections.deque[bytes] = collections.deque()
         self._buffer_offset = 0
         self._eof = False
@@ -321,8 +323,9 @@ class StreamReader:
         # the body transfer. Each offset is the offset of the end of a chunk.
         # "Logical" means bytes, accessible for a user.
         # If no chunks containing logical data were received, current position
-        # is difinitely zero.
-        pos = self._http_chunk_splits[-1] if self._http_chunk_splits else 0
+        # is difinitely zero. (The last end is remembered separately: readchunk()
+        # pops the ends it has reported.)
+        pos = self._last_chunk_end
 
         if self.total_bytes == pos:
             # We should not add empty chunks here. So we check for that.
@@ -332,6 +335,7 @@ class StreamReader:
             # not change after receiving a chunk.
             return
 
+        self._last_chunk_end = self.total_bytes
         self._http_chunk_splits.append(self.total_bytes)
 
         # If we get too many small chunks before self._high_water is reached, then any
